@@ -289,8 +289,37 @@ def only_full(r, F):
               "on_writing_finish is not control-dependent on `i != blocks - 1`: a block that is still being written can be reclaimed", ln=owf.term.ln)
 
 
+def pickers_and_init(r, F):
+    """the eviction pickers are taken out of the State for the duration of a callback loop and always put back (a State without pickers never picks a block
+    again: the disk fills up and every later insert is dropped); init partitions the blocks into clean and evictable — no block is both"""
+    BM = "foyer_storage::engine::block::manager::BlockManager"
+    n = 0
+    for f in F.all_fns("P"):
+        if not (F.P.get(f.root, f).self_ty or "").startswith(BM):
+            continue
+        tk = [b for b in f.calls_to(r"mem::take$") if backslice(f, b.term.args[0], "prov").has_field("eviction_pickers")]
+        sw = [b.idx for b in f.calls_to(r"mem::swap$|mem::replace$") if any(a.place is not None and backslice(f, a, "prov").has_field("eviction_pickers") for a in b.term.args)]
+        sw += [b.idx for b in f.blocks if not b.cleanup for st in b.stmts if st.k == "assign" and st.place.fields()[-1:] == ["eviction_pickers"]]
+        for t in tk:
+            n += 1
+            r.require(bool(sw) and f.must_pass(t.idx, sw), f, "taken pickers are restored", "mem::take(&mut state.eviction_pickers) is followed by putting them back on every path",
+                      "the eviction pickers are taken out of the State and a path returns without restoring them: no block is ever picked for eviction again", ln=t.term.ln)
+    if n < 3:
+        r.fail(None, "sites", "only %d take sites of eviction_pickers (3 confirmed: init, on_writing_finish, evict)" % n)
+    init = F.method(BM, "init")
+    rm = [g for g in F.descendants(init) if g.calls_to(r"HashSet::<T, S, A>::remove$") and g.must_pass(0, [b.idx for b in g.calls_to(r"HashSet::<T, S, A>::remove$")])]
+    insp = init.calls_to(r"Iterator::(inspect|for_each|map|filter)$")
+    ins = [b for b in init.calls_to(r"HashSet::<T, S, A>::insert$") if backslice(init, b.term.args[0], "prov").has_field("evictable_blocks")]
+    nxt = init.calls_to(r"Iterator::next$")
+    in_loop = bool(ins) and any(x.idx in init.reachable([ins[0].idx]) and ins[0].idx in init.reachable([x.idx]) for x in nxt)
+    r.require(bool(rm) and bool(insp) and in_loop and any(2 in backslice(init, b.term.args[0], "dep").args for b in insp), init, "init: evictable = all blocks minus the clean ones",
+              "each clean block is removed from the candidate set; every remaining block is inserted into evictable_blocks",
+              "BlockManager::init does not take the clean blocks out of the evictable candidates (or does not register the rest): a block can be handed to a writer as clean and picked for reclaim at the same time", ln=init.lo)
+
+
 def run(chk, F):
     chk.run_rule("C09.block-typestate", "block sets are mutated only by the manager's transitions, under the State lock, with the prescribed moves; every transition re-arms reclaim", 14, typestate, F)
+    chk.run_rule("C09.pickers-and-init", "taken eviction pickers are restored on every path; init partitions blocks into clean and evictable", 4, pickers_and_init, F)
     chk.run_rule("C09.release-raii", "ReclaimingBlock::drop returns the block; reclaim removes index entries, then cleans, then releases", 4, release_raii, F)
     chk.run_rule("C09.fifo", "clean queue pop_front/push_back; FifoPicker queues at the back and picks the front", 2, fifo, F)
     chk.run_rule("C09.reinsertion", "a re-inserted entry keeps hash, length and sequence and is skipped when the key left the index", 4, reinsertion, F)
